@@ -11,41 +11,64 @@ Fragment: text, emit, `set x = e`, `if`/`elif`/`else`, `with x = e, …`, `for x
 namespace MJ.Compile
 open MJ.Eval
 
-/-- `with` bindings of the fragment: plain names -/
+/-- `with` bindings of the fragment -/
 def simpleBinds : List (Target × Expr) → Bool
   | [] => true
-  | (.var _, e) :: rest => simpleExpr e && simpleBinds rest
-  | (.tuple _, _) :: _ => false
+  | (_, e) :: rest => simpleExpr e && simpleBinds rest
+
+/-- block filters of the fragment: positional arguments over simple expressions -/
+def simpleFilters : List FilterApp → Bool
+  | [] => true
+  | (_, args) :: rest => simpleArgs args && simpleFilters rest
 
 mutual
-  /-- the stage-3 statement fragment: text, `{{ e }}`, `set x = e`, `if` / `elif` / `else`,
-  `with x = e, …`, `for x in e` (no filter, no `else`, no `break` / `continue`) -/
+  /-- the stage-3 statement fragment: text, `{{ e }}`, `set` (incl. unpacking), set-blocks and
+  filter-blocks, `if` / `elif` / `else`, `with`, `for … else` with unpacking (no loop filter, no
+  `break` / `continue`) -/
   def simpleStmt : Stmt → Bool
     | .text _ => true
     | .emit e => simpleExpr e
-    | .set (.var _) e => simpleExpr e
+    | .set _ e => simpleExpr e
     | .ifS c t f => simpleExpr c && simpleBlock t && simpleBlock f
     | .withS binds body => simpleBinds binds && simpleBlock body
-    | .forS (.var x) iter none body [] => x != "loop" && simpleExpr iter && simpleBlock body
+    | .forS _ iter none body els => simpleExpr iter && simpleBlock body && simpleBlock els
+    | .setBlock _ filters body => simpleFilters filters && simpleBlock body
+    | .filterBlock filters body => simpleFilters filters && simpleBlock body
     | _ => false
   def simpleBlock : List Stmt → Bool
     | [] => true
     | s :: rest => simpleStmt s && simpleBlock rest
 end
 
+mutual
+  /-- `compile_assignment` without generator state -/
+  def relTarget : Target → List Instr
+    | .var x => [.storeLocal x]
+    | .tuple ts => .unpackList ts.length :: relTargets ts
+  def relTargets : List Target → List Instr
+    | [] => []
+    | t :: ts => relTarget t ++ relTargets ts
+end
+
 def relBinds : List (Target × Expr) → Nat → Aux → List Instr × Aux
   | [], _, a => ([], a)
-  | (.var x, e) :: rest, base, a =>
+  | (t, e) :: rest, base, a =>
     let re := relExpr e base a
-    let rr := relBinds rest (base + re.1.length + 1) re.2
-    (re.1 ++ [.storeLocal x] ++ rr.1, rr.2)
-  | (.tuple _, _) :: _, _, a => ([], a.markOof)
+    let rr := relBinds rest (base + re.1.length + (relTarget t).length) re.2
+    (re.1 ++ relTarget t ++ rr.1, rr.2)
+
+def relFilters : List FilterApp → Nat → Aux → List Instr × Aux
+  | [], _, a => ([], a)
+  | (name, args) :: rest, base, a =>
+    let ra := relArgs args base a
+    let rr := relFilters rest (base + ra.1.length + 1) (ra.2.filterId name).2
+    (ra.1 ++ [.applyFilter name (1 + args.length) (ra.2.filterId name).1] ++ rr.1, rr.2)
 
 mutual
   def relStmt : Stmt → Nat → Aux → List Instr × Aux
     | .text t, _, a => ([.emitRaw t], a)
     | .emit e, base, a => ((relExpr e base a).1 ++ [.emit], (relExpr e base a).2)
-    | .set (.var x) e, base, a => ((relExpr e base a).1 ++ [.storeLocal x], (relExpr e base a).2)
+    | .set t e, base, a => ((relExpr e base a).1 ++ relTarget t, (relExpr e base a).2)
     | .ifS c t [], base, a =>
       let rc := relExpr c base a
       let rt := relBlock t (base + rc.1.length + 1) rc.2
@@ -60,11 +83,28 @@ mutual
       let rb := relBinds binds (base + 1) a
       let rr := relBlock body (base + 1 + rb.1.length) rb.2
       ([.pushWith] ++ rb.1 ++ rr.1 ++ [.popFrame], rr.2)
-    | .forS (.var x) iter none body [], base, a =>
+    | .forS t iter none body [], base, a =>
       let ri := relExpr iter base a
-      let rb := relBlock body (base + ri.1.length + 3) ri.2
-      (ri.1 ++ [.pushLoop 1, .iterate (base + ri.1.length + 3 + rb.1.length + 1), .storeLocal x] ++ rb.1 ++
+      let bb := base + ri.1.length + 2 + (relTarget t).length
+      let rb := relBlock body bb ri.2
+      (ri.1 ++ [.pushLoop 1, .iterate (bb + rb.1.length + 1)] ++ relTarget t ++ rb.1 ++
         [.jump (base + ri.1.length + 1), .popLoopFrame], rb.2)
+    | .forS t iter none body (e0 :: es), base, a =>
+      let ri := relExpr iter base a
+      let bb := base + ri.1.length + 2 + (relTarget t).length
+      let rb := relBlock body bb ri.2
+      let eb := bb + rb.1.length + 4
+      let re := relBlock (e0 :: es) eb rb.2
+      (ri.1 ++ [.pushLoop 1, .iterate (bb + rb.1.length + 1)] ++ relTarget t ++ rb.1 ++
+        [.jump (base + ri.1.length + 1), .pushDidNotIterate, .popLoopFrame, .jumpIfFalse (eb + re.1.length)] ++ re.1, re.2)
+    | .setBlock x filters body, base, a =>
+      let rb := relBlock body (base + 1) a
+      let rf := relFilters filters (base + 1 + rb.1.length + 1) rb.2
+      ([.beginCapture] ++ rb.1 ++ [.endCapture] ++ rf.1 ++ [.storeLocal x], rf.2)
+    | .filterBlock filters body, base, a =>
+      let rb := relBlock body (base + 1) a
+      let rf := relFilters filters (base + 1 + rb.1.length + 1) rb.2
+      ([.beginCapture] ++ rb.1 ++ [.endCapture] ++ rf.1 ++ [.emit], rf.2)
     | _, _, a => ([], a.markOof)
   def relBlock : List Stmt → Nat → Aux → List Instr × Aux
     | [], _, a => ([], a)
@@ -106,15 +146,45 @@ theorem for_block (g : CG) (Ci Cb : List Instr × Aux) :
   simp [Nat.add_assoc]; omega
 
 
+mutual
+theorem cTarget_eq_rel : ∀ (t : Target) (g : CG), cTarget t g = g.extend (relTarget t, g.aux)
+  | .var x, g => by simp [cTarget, relTarget, CG.add_eq_extend]
+  | .tuple ts, g => by
+    simp only [cTarget, relTarget]
+    rw [cTargets_eq_rel ts, CG.add_eq_extend, CG.extend_extend]
+    simp
+theorem cTargets_eq_rel : ∀ (ts : List Target) (g : CG), cTargets ts g = g.extend (relTargets ts, g.aux)
+  | [], g => by simp [cTargets, relTargets, CG.extend]
+  | t :: ts, g => by
+    simp only [cTargets, relTargets]
+    rw [cTarget_eq_rel t g, cTargets_eq_rel ts, CG.extend_extend]
+    simp
+end
+
 theorem cBinds_eq_rel : ∀ (binds : List (Target × Expr)) (g : CG), simpleBinds binds = true →
     cBinds binds g = g.extend (relBinds binds g.next g.aux)
   | [], g, _ => by simp [cBinds, relBinds, CG.extend]
-  | (.var x, e) :: rest, g, h => by
+  | (t, e) :: rest, g, h => by
     have hs : simpleExpr e = true ∧ simpleBinds rest = true := by simpa [simpleBinds] using h
-    simp only [cBinds, relBinds, cTarget]
-    rw [cExpr_eq_rel e g hs.1, CG.extend_add, cBinds_eq_rel rest _ hs.2]
+    simp only [cBinds, relBinds]
+    rw [cExpr_eq_rel e g hs.1, cTarget_eq_rel, CG.extend_extend, cBinds_eq_rel rest _ hs.2]
     simp [CG.extend_extend, Nat.add_assoc]
-  | (.tuple _, _) :: _, _, h => by simp [simpleBinds] at h
+
+theorem cFilters_eq_rel : ∀ (fs : List FilterApp) (g : CG), simpleFilters fs = true →
+    cFilters fs g = g.extend (relFilters fs g.next g.aux)
+  | [], g, _ => by simp [cFilters, relFilters, CG.extend]
+  | (name, args) :: rest, g, h => by
+    have hs : simpleArgs args = true ∧ simpleFilters rest = true := by simpa [simpleFilters] using h
+    simp only [cFilters, relFilters]
+    rw [cArgs_eq_rel args g hs.1]
+    have e1 : ((g.extend (relArgs args g.next g.aux)).filterId name).2.add
+          (Instr.applyFilter name (1 + args.length) ((g.extend (relArgs args g.next g.aux)).filterId name).1) =
+        g.extend ((relArgs args g.next g.aux).1 ++
+          [Instr.applyFilter name (1 + args.length) ((relArgs args g.next g.aux).2.filterId name).1],
+          ((relArgs args g.next g.aux).2.filterId name).2) := by
+      simp [CG.filterId, CG.extend, CG.add]
+    rw [e1, cFilters_eq_rel rest _ hs.2]
+    simp [CG.extend_extend, Nat.add_assoc]
 
 theorem scope_block (g : CG) (k : ScopeKind) (C : List Instr × Aux) :
     ((g.startScope k).extend C).endScope = g.extend C := by
@@ -131,21 +201,48 @@ theorem scope_block (g : CG) (k : ScopeKind) (C : List Instr × Aux) :
     ((g.extend C).startForLoop b).aux = C.2 := by
   simp [CG.startForLoop, CG.extend, CG.add]
 
-@[simp] theorem next_startFor_add (g : CG) (C : List Instr × Aux) (b : Bool) (i : Instr) :
-    (((g.extend C).startForLoop b).add i).next = g.next + C.1.length + 3 := by
-  simp [CG.startForLoop, CG.extend, CG.add, CG.next, Nat.add_assoc]
-@[simp] theorem aux_startFor_add (g : CG) (C : List Instr × Aux) (b : Bool) (i : Instr) :
-    (((g.extend C).startForLoop b).add i).aux = C.2 := by
-  simp [CG.startForLoop, CG.extend, CG.add]
+@[simp] theorem patch_next (g : CG) (i t : Nat) : (g.patch i t).next = g.next := by
+  unfold CG.patch; split <;> simp [CG.next]
+@[simp] theorem patch_aux (g : CG) (i t : Nat) : (g.patch i t).aux = g.aux := by
+  unfold CG.patch; split <;> rfl
+@[simp] theorem patch_pending (g : CG) (i t : Nat) : (g.patch i t).pending = g.pending := by
+  unfold CG.patch; split <;> rfl
+@[simp] theorem patchAll_next (is : List Nat) (t : Nat) : ∀ g : CG, (g.patchAll is t).next = g.next := by
+  induction is with
+  | nil => intro g; rfl
+  | cons i rest ih => intro g; simp [CG.patchAll] at ih ⊢; rw [ih]; simp
+@[simp] theorem patchAll_aux (is : List Nat) (t : Nat) : ∀ g : CG, (g.patchAll is t).aux = g.aux := by
+  induction is with
+  | nil => intro g; rfl
+  | cons i rest ih => intro g; simp [CG.patchAll] at ih ⊢; rw [ih]; simp
 
-theorem startScope_extend (g : CG) (k : ScopeKind) (C : List Instr × Aux) :
-    (g.extend C).startScope k = (g.startScope k).extend C := by
-  simp [CG.startScope, CG.extend]
+theorem endFor_else_eq (g : CG) (Ci Cb : List Instr × Aux) :
+    (((g.extend Ci).startForLoop true).extend Cb).endForLoop true =
+      g.extend (Ci.1 ++ [Instr.pushLoop 1, Instr.iterate (g.next + Ci.1.length + 2 + Cb.1.length + 1)] ++ Cb.1 ++
+        [Instr.jump (g.next + Ci.1.length + 1), Instr.pushDidNotIterate, Instr.popLoopFrame], Cb.2) := by
+  simp only [CG.startForLoop, CG.endForLoop, CG.extend, CG.add, CG.next, CG.patchAll, List.nil_append,
+    List.foldl, if_true]
+  rw [patch_iterate _ (g.code ++ Ci.1 ++ [Instr.pushLoop 1])
+    (Cb.1 ++ [Instr.jump (g.code ++ Ci.1 ++ [Instr.pushLoop 1]).length] ++ [Instr.pushDidNotIterate] ++ [Instr.popLoopFrame])
+    _ unpatched _ (by simp) (by simp)]
+  simp [Nat.add_assoc]; omega
 
-theorem startFor_add_extend (g : CG) (Ci : List Instr × Aux) (i : Instr) (C : List Instr × Aux) :
-    ((((g.extend Ci).startForLoop true).add i).extend C) =
-      ((g.extend Ci).startForLoop true).extend (i :: C.1, C.2) := by
-  simp [CG.extend, CG.add]
+theorem next_forElse_startIf (g : CG) (Ci Cb : List Instr × Aux) :
+    ((((g.extend Ci).startForLoop true).extend Cb).endForLoop true).startIf.next =
+      g.next + Ci.1.length + 2 + Cb.1.length + 4 := by
+  rw [endFor_else_eq, next_startIf_ext]; simp; omega
+theorem aux_forElse_startIf (g : CG) (Ci Cb : List Instr × Aux) :
+    ((((g.extend Ci).startForLoop true).extend Cb).endForLoop true).startIf.aux = Cb.2 := by
+  rw [endFor_else_eq, aux_startIf_ext]
+
+/-- a `for` loop with an `else` branch: `Ci` iterable, `Cb` target + body, `Ce` else body -/
+theorem for_else_block (g : CG) (Ci Cb Ce : List Instr × Aux) :
+    ((((((g.extend Ci).startForLoop true).extend Cb).endForLoop true).startIf).extend Ce).endIf =
+      g.extend (Ci.1 ++ [Instr.pushLoop 1, Instr.iterate (g.next + Ci.1.length + 2 + Cb.1.length + 1)] ++ Cb.1 ++
+        [Instr.jump (g.next + Ci.1.length + 1), Instr.pushDidNotIterate, Instr.popLoopFrame,
+         Instr.jumpIfFalse (g.next + Ci.1.length + 2 + Cb.1.length + 4 + Ce.1.length)] ++ Ce.1, Ce.2) := by
+  rw [endFor_else_eq, if_block_noelse]
+  simp [CG.extend, CG.next, Nat.add_assoc]; omega
 
 mutual
 theorem cStmt_eq_rel : ∀ (st : Stmt) (g : CG), simpleStmt st = true →
@@ -154,10 +251,9 @@ theorem cStmt_eq_rel : ∀ (st : Stmt) (g : CG), simpleStmt st = true →
   | .emit e, g, h => by
     have hs : simpleExpr e = true := by simpa [simpleStmt] using h
     simp [cStmt, relStmt, cExpr_eq_rel e g hs]
-  | .set (.var x) e, g, h => by
+  | .set t e, g, h => by
     have hs : simpleExpr e = true := by simpa [simpleStmt] using h
-    simp [cStmt, relStmt, cTarget, cExpr_eq_rel e g hs]
-  | .set (.tuple _) _, _, h => by simp [simpleStmt] at h
+    simp [cStmt, relStmt, cExpr_eq_rel e g hs, cTarget_eq_rel, CG.extend_extend]
   | .ifS c t [], g, h => by
     have hs : simpleExpr c = true ∧ simpleBlock t = true := by simpa [simpleStmt, simpleBlock] using h
     simp only [cStmt, relStmt]
@@ -173,20 +269,31 @@ theorem cStmt_eq_rel : ∀ (st : Stmt) (g : CG), simpleStmt st = true →
     have hs : simpleBinds binds = true ∧ simpleBlock body = true := by simpa [simpleStmt] using h
     simp only [cStmt, relStmt]
     rw [cBinds_eq_rel binds _ hs.1, cBlock_eq_rel body _ hs.2]
-    simp [CG.startScope, CG.endScope, CG.extend, CG.add, CG.next, Nat.add_assoc, Nat.add_comm, Nat.add_left_comm]
-  | .forS (.var x) iter none body [], g, h => by
-    have hs : (¬ x = "loop" ∧ simpleExpr iter = true) ∧ simpleBlock body = true := by
+    simp [CG.startScope, CG.endScope, CG.extend, CG.add, CG.next, Nat.add_assoc, Nat.add_comm]
+  | .forS t iter none body [], g, h => by
+    have hs : simpleExpr iter = true ∧ simpleBlock body = true := by
+      simpa [simpleStmt, simpleBlock] using h
+    simp only [cStmt, relStmt]
+    rw [cExpr_eq_rel iter g hs.1, cTarget_eq_rel, cBlock_eq_rel body _ hs.2, CG.extend_extend, for_block]
+    simp [Nat.add_assoc]
+  | .forS t iter none body (e0 :: es), g, h => by
+    have hs : (simpleExpr iter = true ∧ simpleBlock body = true) ∧ simpleBlock (e0 :: es) = true := by
       simpa [simpleStmt] using h
-    simp only [cStmt, relStmt, cTarget]
-    rw [cExpr_eq_rel iter g hs.1.2, cBlock_eq_rel body _ hs.2, next_startFor_add, aux_startFor_add,
-      startFor_add_extend, for_block]
-    have e : ∀ n m : Nat, g.next + n + 2 + (m + 1) + 1 = g.next + n + 3 + m + 1 := by intros; omega
-    simp [e]
-  | .forS (.tuple _) _ _ _ _, _, h => by simp [simpleStmt] at h
-  | .forS (.var _) _ (some _) _ _, _, h => by simp [simpleStmt] at h
-  | .forS (.var _) _ none _ (_ :: _), _, h => by simp [simpleStmt] at h
-  | .setBlock .., _, h => by simp [simpleStmt] at h
-  | .filterBlock .., _, h => by simp [simpleStmt] at h
+    simp only [cStmt, relStmt]
+    rw [cExpr_eq_rel iter g hs.1.1, cTarget_eq_rel, cBlock_eq_rel body _ hs.1.2, CG.extend_extend,
+      cBlock_eq_rel (e0 :: es) _ hs.2, next_forElse_startIf, aux_forElse_startIf, for_else_block]
+    simp [Nat.add_assoc]
+  | .forS _ _ (some _) _ _, _, h => by simp [simpleStmt] at h
+  | .setBlock x filters body, g, h => by
+    have hs : simpleFilters filters = true ∧ simpleBlock body = true := by simpa [simpleStmt] using h
+    simp only [cStmt, relStmt]
+    rw [cBlock_eq_rel body _ hs.2, scope_block, cFilters_eq_rel filters _ hs.1]
+    simp [CG.extend, CG.add, CG.next, CG.startScope, Nat.add_assoc, Nat.add_comm, Nat.add_left_comm]
+  | .filterBlock filters body, g, h => by
+    have hs : simpleFilters filters = true ∧ simpleBlock body = true := by simpa [simpleStmt] using h
+    simp only [cStmt, relStmt]
+    rw [cBlock_eq_rel body _ hs.2, scope_block, cFilters_eq_rel filters _ hs.1]
+    simp [CG.extend, CG.add, CG.next, CG.startScope, Nat.add_assoc, Nat.add_comm, Nat.add_left_comm]
   | .macroS .., _, h => by simp [simpleStmt] at h
   | .callBlock .., _, h => by simp [simpleStmt] at h
   | .breakS, _, h => by simp [simpleStmt] at h
